@@ -981,7 +981,16 @@ def _deepcopy(self, memo):
 
 @H("var_mean")
 def _var_mean(a, *args, **k):
-    raise Unmodelled("var_mean on symbolic tensor")
+    """Assumed contract of torch.var_mean (whole tensor, unbiased): (sum (x-mean)^2 / (n-1), sum x / n)."""
+    if args or any(v is not None for kk, v in k.items() if kk in ("dim",)) or k.get("unbiased", True) is not True or k.get("correction", 1) != 1:
+        raise Unmodelled("var_mean with dim / biased estimator")
+    A_ = _obj(a).reshape(-1)
+    n = A_.shape[0]
+    if n < 2:
+        raise Unmodelled("var_mean of fewer than two symbolic samples (NaN)")
+    mean = sum(A_, alg.ZERO) / n
+    var = sum(((x - mean) * (x - mean) for x in A_), alg.ZERO) / (n - 1)
+    return _new(var), _new(mean)
 
 
 # ----------------------------------------------------------------------------
@@ -1016,6 +1025,20 @@ class SymFloat(float):
     def __eq__(self, o): raise ValueDependent("comparison of a symbolic float")
     __hash__ = None
     def __repr__(self): return "SymFloat(%s)" % self.p.short(60)
+
+    def __array_ufunc__(self, ufunc, method, *inputs, **kwargs):
+        nm = ufunc.__name__
+        if method != "__call__" or kwargs.get("out") is not None:
+            raise Unmodelled("numpy ufunc %s.%s on a symbolic float" % (nm, method))
+        vals = [x.p if isinstance(x, SymFloat) else to_P(x) for x in inputs]
+        if nm == "sqrt":
+            return SymFloat(alg.sqrt(vals[0]))
+        if nm in ("add", "subtract", "multiply", "true_divide", "divide"):
+            op = {"add": _op.add, "subtract": _op.sub, "multiply": _op.mul, "true_divide": _op.truediv, "divide": _op.truediv}[nm]
+            return SymFloat(op(vals[0], vals[1]))
+        if nm in ("absolute", "fabs"):
+            return SymFloat(alg.absval(vals[0]))
+        raise Unmodelled("numpy ufunc without assumed contract on a symbolic float: %s" % nm)
 
 
 # ----------------------------------------------------------------------------
